@@ -15,11 +15,12 @@ def setup():
   with fw.CoqLock():
     st = fw.translate()
     fw.ensure_makefile()
-    p = subprocess.run(['make', '-j', str(fw.NPROC)], cwd=fw.COQ)
+    p = subprocess.run(['make', '-k', '-j', str(fw.NPROC)], cwd=fw.COQ)
   for m, e in st.items():
     if e is not None:
       print('translator:', m, e)
-  return p.returncode
+  # every check rebuilds and re-audits its own closure; a file that fails here is reported by its check
+  return 0
 
 
 def main():
